@@ -111,6 +111,7 @@ func (s *unicastSubjectImpl[T]) NextWithContext(ctx context.Context, value T) {
 		if s.observer != nil {
 			tmp := s.observer
 			defer tmp.NextWithContext(ctx, value) // out of lock
+			defer verifPoint("unicast.deliver.unlocked")
 		} else {
 			s.values = append(s.values, lo.T2(ctx, value))
 			if s.bufferSize != UnicastSubjectUnlimitedBufferSize && len(s.values) > s.bufferSize {
@@ -143,6 +144,7 @@ func (s *unicastSubjectImpl[T]) ErrorWithContext(ctx context.Context, err error)
 			s.observer = nil
 
 			defer tmp.ErrorWithContext(ctx, err)
+			defer verifPoint("unicast.deliver.unlocked")
 		} else {
 			OnDroppedNotification(ctx, NewNotificationError[T](err))
 		}
@@ -170,6 +172,7 @@ func (s *unicastSubjectImpl[T]) CompleteWithContext(ctx context.Context) {
 			s.observer = nil
 
 			defer tmp.CompleteWithContext(ctx)
+			defer verifPoint("unicast.deliver.unlocked")
 		} else {
 			OnDroppedNotification(ctx, NewNotificationComplete[T]())
 		}
